@@ -1418,3 +1418,23 @@ package engine
 //@ func clauses.call$1
 //@   property C09
 //@   captures-copy c clause
+
+//@ ---------------------------------------------------------------- loading a text (C20)
+
+//@ func (*text).flush
+//@   property C20
+//@   requires t != nil && t.clauses != nil
+//@   requires[procedures-exist] forall q procedureIndicator :: has(t.clauses, q) ==> t.clauses[q] != nil
+//@   requires[the-buffer-has-its-own-array] forall q procedureIndicator :: has(t.clauses, q) ==> backing(t.clauses[q].clauses) != backing(t.buf) || backing(t.buf) == nil
+//@   let pi = t.buf[0].pi
+//@   let n = len(t.buf)
+//@   let was = has(t.clauses, t.buf[0].pi)
+//@   let before = len(t.clauses[t.buf[0].pi].clauses)
+//@   modifies heap
+//@   ensures[an-empty-run-is-a-no-op] n == 0 ==> result == nil && len(t.buf) == 0
+//@   ensures[separated-clauses-need-discontiguous] n > 0 && was && before > 0 && !old(t.clauses[pi].discontiguous) ==> result != nil && len(t.buf) == n
+//@   ensures[otherwise-the-run-is-taken] n > 0 && !(was && before > 0 && !old(t.clauses[pi].discontiguous)) ==> result == nil && len(t.buf) == 0 && has(t.clauses, pi) && t.clauses[pi] != nil
+//@   ensures[clauses-are-added-in-source-order] result == nil && n > 0 ==> len(t.clauses[pi].clauses) == ite(was, before, 0) + n &&
+//@       forall j int :: 0 <= j && j < n ==> t.clauses[pi].clauses[ite(was, before, 0) + j].raw == old(t.buf[j].raw) && t.clauses[pi].clauses[ite(was, before, 0) + j].bytecode == old(t.buf[j].bytecode)
+//@   ensures[earlier-clauses-keep-their-place] result == nil && n > 0 && was ==> forall j int :: 0 <= j && j < before ==> t.clauses[pi].clauses[j].raw == old(t.clauses[pi].clauses[j].raw)
+//@   ensures[the-buffer-keeps-its-own-array] result == nil && n > 0 ==> backing(t.clauses[pi].clauses) != backing(t.buf)
